@@ -703,7 +703,14 @@ class Machine:
             elif kind(v) != "list":
                 raise Unspec("destructuring a non-collection")
             if len(v) < len(n[1]):
-                raise Unspec("short destructuring")
+                if t == "dassign":
+                    raise Unspec("short destructuring assignment")
+                # def [a, b] = [1]: every listed name is bound in the current
+                # scope, the ones without a value to NULL; the value of the
+                # statement is NULL
+                for k, nm in enumerate(n[1]):
+                    env.vars[nm] = v[k] if k < len(v) else None
+                return None
             for nm, x in zip(n[1], v):
                 if t == "ddef":
                     env.vars[nm] = x
